@@ -370,6 +370,10 @@ static void on_crash(int sig)
 {
 	char buf[64]; int n=snprintf(buf,sizeof(buf),"<crash signal=%d>\n",sig);
 	ssize_t r=write(1,buf,n); (void)r;
+	// keep the one-line-per-case protocol: the cases this worker will not run any more are answered <missing>
+	// (no verdict), so that the crash marker stays attached to the case that crashed
+	int ch;
+	while((ch=std::cin.rdbuf()->sbumpc())!=EOF) { if(ch=='\n') { r=write(1,"<missing>\n",10); (void)r; } }
 	_exit(3);
 }
 
